@@ -34,6 +34,8 @@ def load_module(pid):
 
 # ------------------------------------------------------------ findings ----
 def load_findings(pid):
+    if os.environ.get("VERIF_IGNORE_KNOWN") == "1":  # development aid
+        return []
     paths = [os.path.join(HERE, "known_findings.json")]
     d = os.path.join(HERE, "known_findings.d")
     if os.path.isdir(d):
